@@ -103,6 +103,18 @@ theorem encode_decode_float (ext : Ext) (s : Bytes) :
     rw [hl] at hlt
     rw [encode_f32 ext _ (by simpa using hlt), LE.put_get 4 s hl]
 
+/-- "…a fixed bijection", injectivity stated outright: two values of one integer type with the same
+    binary form are the same value (no two in-range integers share an encoding), for every type and
+    every pair — a corollary of `decode_encode_int`, so it holds of what the generated tables do. -/
+theorem encode_int_injective (ext : Ext) (t : IntTy) (v w : Int) (hv : t.inRange v) (hw : t.inRange w)
+    (h : LE.put (t.bits / 8) (LE.toU t.bits v) = LE.put (t.bits / 8) (LE.toU t.bits w)) : v = w := by
+  have h1 := decode_encode_int ext t v hv
+  have h2 := decode_encode_int ext t w hw
+  rw [h, h2] at h1
+  injection h1 with h1
+  injection h1 with _ h1
+  exact h1.symm
+
 /-- A byte sequence of any other length — every length, not a sample — is rejected with the
     cast-failure error when a fixed-width type is requested. -/
 theorem wrong_length_rejected (ext : Ext) (s : Bytes) :
